@@ -1,6 +1,7 @@
 //! Shared pieces of the verification harness: a virtual project, a file manager with the same
 //! semantics as beff-wasm's LazyFileManager, panic capture and per-thread CPU accounting.
 pub mod refmodel;
+pub mod report;
 pub mod rng;
 pub mod tgen;
 
